@@ -8,7 +8,7 @@ Proof.
   induction k as [|k IH]; intros q s t n Hl H.
   - destruct s; [discriminate|cbn in Hl; lia].
   - destruct s as [|c r]; [discriminate|]. cbn [close_quote app] in *. cbn [length] in Hl.
-    destruct (c =? q); [exact H|]. destruct (c =? c_vt); [exact H|].
+    destruct (c =? q); [exact H|].
     destruct (c =? c_bs).
     + destruct r as [|d r']; [discriminate|]. cbn [app]. cbn [length] in Hl.
       destruct (close_quote q r') as [m|] eqn:E; [|discriminate].
@@ -25,7 +25,7 @@ Proof.
   induction k as [|k IH]; intros q s n Hl H.
   - destruct s; [discriminate|cbn in Hl; lia].
   - destruct s as [|c r]; [discriminate|]. cbn [close_quote] in H. cbn [length] in *.
-    destruct (c =? q); [injection H as <-; lia|]. destruct (c =? c_vt); [discriminate|].
+    destruct (c =? q); [injection H as <-; lia|].
     destruct (c =? c_bs).
     + destruct r as [|d r']; [discriminate|]. cbn [length] in *.
       destruct (close_quote q r') as [m|] eqn:E; [|discriminate]. injection H as <-.
@@ -43,7 +43,7 @@ Proof.
   induction s as [|x r IH]; intros skip acc c H.
   - cbn [balanced_at] in H. apply PeanoNat.Nat.eqb_eq in H. subst skip. cbn. rewrite app_nil_r. reflexivity.
   - cbn [balanced_at] in H. cbn [app split_at]. destruct skip as [|k].
-    + destruct (x =? c_semi); [discriminate|]. destruct (x =? c_vt); [discriminate|].
+    + destruct (x =? c_semi); [discriminate|].
       destruct (is_quote x).
       * destruct (close_quote x r) as [n|] eqn:E; [|discriminate].
         rewrite (close_quote_app _ _ (c_semi :: c) _ E).
@@ -58,7 +58,7 @@ Proof.
   induction s as [|x r IH]; intros skip acc H.
   - cbn. rewrite app_nil_r. reflexivity.
   - cbn [balanced_at] in H. cbn [split_at]. destruct skip as [|k].
-    + destruct (x =? c_semi); [discriminate|]. destruct (x =? c_vt); [discriminate|].
+    + destruct (x =? c_semi); [discriminate|].
       destruct (is_quote x).
       * destruct (close_quote x r) as [n|] eqn:E; [|discriminate].
         rewrite (IH n (x :: acc) H). cbn [rev]. rewrite <- app_assoc. reflexivity.
@@ -74,13 +74,13 @@ Theorem no_comment : forall s, balanced s = true -> split_line s = Some (s, None
 Proof. intros s H. unfold split_line. rewrite (split_balanced_alone s 0%nat [] H). reflexivity. Qed.
 
 (* text without quotes, semicolons and vertical tabs is balanced *)
-Definition plain_char (c : Z) : bool := negb (c =? c_semi) && negb (c =? c_vt) && negb (is_quote c).
+Definition plain_char (c : Z) : bool := negb (c =? c_semi) && negb (is_quote c).
 Lemma plain_balanced : forall s, forallb plain_char s = true -> balanced s = true.
 Proof.
   unfold balanced. induction s as [|x r IH]; intros H; [reflexivity|].
   cbn [forallb] in H. apply andb_true_iff in H as [Hx Hr]. unfold plain_char in Hx.
-  apply andb_true_iff in Hx as [Hx Hq]. apply andb_true_iff in Hx as [Hs Hv].
-  cbn [balanced_at]. apply negb_true_iff in Hs, Hv, Hq. rewrite Hs, Hv, Hq. exact (IH Hr).
+  apply andb_true_iff in Hx as [Hs Hq].
+  cbn [balanced_at]. apply negb_true_iff in Hs, Hq. rewrite Hs, Hq. exact (IH Hr).
 Qed.
 
 (* a complete string -- whatever it contains, semicolons included -- between two balanced texts is statement text *)
@@ -95,7 +95,7 @@ Proof.
   induction a as [|x r IH]; intros k b Ha Hb.
   - cbn [balanced_at] in Ha. apply PeanoNat.Nat.eqb_eq in Ha. subst k. exact Hb.
   - cbn [app balanced_at] in *. destruct k as [|k].
-    + destruct (x =? c_semi); [discriminate|]. destruct (x =? c_vt); [discriminate|].
+    + destruct (x =? c_semi); [discriminate|].
       destruct (is_quote x).
       * destruct (close_quote x r) as [n|] eqn:E; [|discriminate].
         rewrite (close_quote_app _ _ b _ E). exact (IH n b Ha Hb).
@@ -112,9 +112,7 @@ Proof.
   intros q inner n Hq Hc Hn. unfold balanced. cbn [balanced_at].
   assert (Hs : (q =? c_semi) = false).
   { unfold is_quote in Hq. apply orb_true_iff in Hq as [H|H]; apply Z.eqb_eq in H; subst q; reflexivity. }
-  assert (Hv : (q =? c_vt) = false).
-  { unfold is_quote in Hq. apply orb_true_iff in Hq as [H|H]; apply Z.eqb_eq in H; subst q; reflexivity. }
-  rewrite Hs, Hv, Hq, Hc.
+  rewrite Hs, Hq, Hc.
   rewrite <- (app_nil_r inner). rewrite (balanced_at_skip inner [] n Hn). reflexivity.
 Qed.
 
